@@ -70,6 +70,8 @@ type op struct {
 	At    int    // byte at which the reader fails / the context is cancelled
 	Str   bool   // ok: through CalculateStringHash(hasher, text) instead of the reader entry point
 	Err   string // fail: "" = an error of the harness's own; "unexpected-eof" = io.ErrUnexpectedEOF; "wrapped-eof" = an error wrapping io.EOF
+	// EmptyEvery > 0 (ok): every EmptyEvery-th Read returns (0, nil) before the end of the data
+	EmptyEvery int
 }
 
 func (o op) String() string {
@@ -77,6 +79,9 @@ func (o op) String() string {
 	case "ok":
 		if o.Str {
 			return fmt.Sprintf("ok-string(len=%d)", o.Len)
+		}
+		if o.EmptyEvery > 0 {
+			return fmt.Sprintf("ok(len=%d,chunk=%d,every-%d-th-read-empty)", o.Len, o.Chunk, o.EmptyEvery)
 		}
 		return fmt.Sprintf("ok(len=%d,chunk=%d)", o.Len, o.Chunk)
 	default:
@@ -107,6 +112,10 @@ type scriptedReader struct {
 	failWith    string
 	cancel      context.CancelFunc
 	cancAt      int // -1 never
+	// emptyEvery > 0: every emptyEvery-th call returns (0, nil) before the end of the data, which the io.Reader contract
+	// allows ("discouraged"): a reader that has nothing to give right now
+	emptyEvery int
+	calls      int
 }
 
 func (r *scriptedReader) Read(p []byte) (int, error) {
@@ -124,6 +133,9 @@ func (r *scriptedReader) Read(p []byte) (int, error) {
 	}
 	if r.pos >= len(r.data) {
 		return 0, io.EOF
+	}
+	if r.calls++; r.emptyEvery > 0 && r.calls%r.emptyEvery == 0 && len(p) > 0 {
+		return 0, nil
 	}
 	n := len(p)
 	if r.chunk > 0 && n > r.chunk {
@@ -164,6 +176,9 @@ func alphabet(thorough bool) []op {
 		for _, c := range chunks {
 			a = append(a, op{Kind: "ok", Len: l, Chunk: c})
 		}
+		if l >= 63 {
+			a = append(a, op{Kind: "ok", Len: l, Chunk: 7, EmptyEvery: 3}, op{Kind: "ok", Len: l, Chunk: 0, EmptyEvery: 2 + l%2})
+		}
 	}
 	for _, l := range []int{0, 1, 65} {
 		a = append(a, op{Kind: "ok", Len: l, Str: true})
@@ -183,7 +198,7 @@ func apply(h hashing.IHash, algo string, o op, salt byte) (got, want string, err
 	data := content(o.Len, salt)
 	ctx, cancel := context.WithCancel(context.Background())
 	defer cancel()
-	r := &scriptedReader{data: data, chunk: o.Chunk, failAt: -1, cancAt: -1, cancel: cancel}
+	r := &scriptedReader{data: data, chunk: o.Chunk, failAt: -1, cancAt: -1, cancel: cancel, emptyEvery: o.EmptyEvery}
 	if o.Chunk < 0 {
 		r.eofWithData = true
 		r.chunk = -o.Chunk
